@@ -257,6 +257,18 @@ func c19Child(spec string) {
 						atomic.AddInt64(&badText, 1)
 					}
 				}
+				if k%64 == 7 { // methods the tree has beyond the pinned API are part of the program too: called while others draw
+					for _, r := range exploreValue(id) {
+						if x, ok := r.Interface().(uu.ID); ok && x != id && x != (uu.ID{}) {
+							local = append(local, c19Draw{x, atomic.AddInt64(&ticket, 1)})
+						}
+					}
+					for _, r := range exploreValue(uu.ID{}) {
+						if x, ok := r.Interface().(uu.ID); ok && x != (uu.ID{}) {
+							local = append(local, c19Draw{x, atomic.AddInt64(&ticket, 1)})
+						}
+					}
+				}
 				if changeProcs && gi == 0 && k%997 == 0 { // the program resizes its scheduler while IDs are drawn
 					runtime.GOMAXPROCS([]int{1, 2, 4, 16, 3, 8}[(k/997)%6])
 				}
@@ -269,7 +281,10 @@ func c19Child(spec string) {
 	}
 	close(start)
 	wg.Wait()
-	total := per * g
+	total := 0
+	for _, l := range all {
+		total += len(l)
+	}
 	owner := make([]int32, total+1)
 	seen := make(map[uu.ID]struct{}, total)
 	for gi, l := range all {
